@@ -1266,7 +1266,10 @@ def _fd_update_root(
       rank,
   )
 
-  val = packed_precond
+  # Keep the dtype of the sketch that came in: jnp.zeros in the packing helper
+  # defaults to float64 under jax_enable_x64, which the other branch of the
+  # enclosing lax.cond (and the optimizer state) does not use.
+  val = packed_precond.astype(prev.dtype)
   error_metrics = default_training_metrics(generate_fd_metrics).replace(
       inverse_pth_root_errors=jnp.array(0.0, jnp.float32))
   if generate_training_metrics and generate_fd_metrics:
